@@ -7,7 +7,7 @@ import (
 )
 
 const c06Rule = "as C05 sub-campaign (a) (single writer per key) on the multihash primary with small file sizes, plus tasks that run one primary GC cycle (threshold drawn) or one index GC cycle (scan-free on/off), on stores prepared by a generated sequential prefix (overwrites, removals, flushes, earlier GC cycles) so that superseded index records, free spans, low-use primary files and pending freelist entries exist and the GC tasks really mark, merge, truncate, relocate and unlink; the scheduler additionally parks at the named points inside index GC (busy check, mark, merge, truncate, header, unlink), primary GC (freelist hand-over, mark, merge, truncate, relocation put / index update / freelist put, header, unlink) and Index.Get (after releasing the read lock); free-running variant with 1 ms flusher. " +
-	stressRuleText + " (here: with index GC cycles every 0.1-1 ms: on the CID primary, which has no primary collector, with the full call mix; on the multihash primary with both collectors and keys only ever added - the two configurations in which the recorded finding KF-C06 cannot occur, so nothing is attributed to it); " +
+	stressRuleText + " (here: with index GC cycles every 0.1-1 ms: on the CID primary, which has no primary collector, with the full call mix; on the multihash primary with both collectors and keys only ever added - the two configurations in which the recorded finding KF-C06 cannot occur, so nothing is attributed to it); in a fifth of the volume cases a prepared store with low-use primary files gets one or two explicit primary GC cycles that relocate the survivors while 1-4 goroutines put brand-new keys into the same buckets, with no flush during the concurrent phase (nothing is reclaimed under a caller, so KF-C06 cannot occur either); " +
 	"oracle = as C05 (no error, linearizable per key incl. final reads) and additionally no Get may return bytes never written for its key (values are unique per operation); " +
 	"non-trivial = a GC task performed >=1 file mutation and overlapped a foreground call in logical time; distinct = distinct canonical JSON of the case"
 
@@ -152,5 +152,5 @@ func TestC06(t *testing.T) {
 			return st.gcOverlap
 		}
 		return st.gcMutated && st.gcOverlap
-	}, 6000, 5000, 3000, 6000, []int{stressIndexGC, stressAppendOnly}, 3000, 6000)
+	}, 6000, 5000, 3000, 6000, []int{stressIndexGC, stressAppendOnly, stressIndexGC, stressAppendOnly, stressRelocation}, 3000, 6000)
 }
